@@ -3,6 +3,7 @@
    computed by a greedy scheduler and replayed by vm_compute. *)
 From Coq Require Import List Bool Arith Lia.
 From VV Require Import Sched.Model Sched.Defs Sched.Inv Sched.ProofsC01 Sched.ProofsC04.
+From VV Require Import Sched.EnvApply Sched.EnvApplyProofs.
 Import ListNotations.
 
 Definition deps0 (t : nat) : list nat := match t with 1 => [0] | 2 => [1] | _ => [] end.
@@ -237,4 +238,39 @@ Lemma run3_summary :
               /\ map (fun t => est (env s t)) [0; 1; 2] = [Some DONE; Some DONE; Some DONE]
   | None => False
   end.
+Proof. vm_compute. auto. Qed.
+
+(* ================= Env.apply (Sched/EnvApply.v) ================= *)
+(* old = {0: {1: 5, 2: {3: 6}}, 4: 7},  update = {0: {2: {3: 8, 5: 9}, 6: {}}, 7: {1: 1}} *)
+Definition old_ex : val := Dict [(0, Dict [(1, Leaf 5); (2, Dict [(3, Leaf 6)])]); (4, Leaf 7)].
+Definition upd_ex : val :=
+  Dict [(0, Dict [(2, Dict [(3, Leaf 8); (5, Leaf 9)]); (6, Dict [])]); (7, Dict [(1, Leaf 1)])].
+
+Example apply_ex :
+  wf upd_ex = true
+  /\ merge upd_ex old_ex
+     = Some (Dict [(0, Dict [(1, Leaf 5); (2, Dict [(3, Leaf 8); (5, Leaf 9)]); (6, Dict [])]);
+                   (4, Leaf 7); (7, Dict [(1, Leaf 1)])])
+  /\ get_path upd_ex [0; 2; 5] = Some (Leaf 9)          (* a leaf path of the update ... *)
+  /\ untouched upd_ex [0; 1] = true                      (* ... and a path that leaves it *)
+  /\ untouched upd_ex [4] = true.
+Proof. vm_compute. auto. Qed.
+
+(* the hypotheses of the theorems hold on it, so their conclusions do *)
+Example apply_ex_readable :
+  exists e', merge upd_ex old_ex = Some e' /\ get_path e' [0; 2; 5] = Some (Leaf 9)
+             /\ get_path e' [0; 1] = get_path old_ex [0; 1].
+Proof.
+  destruct apply_ex as (W & M & R & U & _). eexists. split; [exact M|]. split.
+  - eapply update_readable; eauto.
+  - eapply apply_frame; eauto.
+Qed.
+
+(* a call that raises: the update has a non-empty dictionary where the environment has a leaf;
+   an empty one there is a no-op *)
+Example apply_ex_fails :
+  merge (Dict [(4, Dict [(1, Leaf 1)])]) old_ex = None
+  /\ get_path (Dict [(4, Dict [(1, Leaf 1)])]) [4] = Some (Dict [(1, Leaf 1)])
+  /\ get_path old_ex [4] = Some (Leaf 7)
+  /\ merge (Dict [(4, Dict [])]) old_ex = Some old_ex.
 Proof. vm_compute. auto. Qed.
